@@ -344,6 +344,17 @@ class GroupDomain(RingDomain):
             # the twisted Frobenius acts on G2 as multiplication by q = x (mod r)  (trusted; q = x mod r by construction of q)
             from bvspec import X as BLS_X
             this.val = G(0).scale(BLS_X ** I.rv(args[1]))
+        elif n.startswith("multiply_doubleadd"):
+            # double-and-add over the bits highest_bit .. 0 of the scalar (C06 unit): bits above highest_bit are ignored
+            k = self.sval(args[1], "%s scalar" % f.qname)
+            bits = int(BIGINT_RE.match(args[1].type).group(1)) if isinstance(args[1], Leaf) and BIGINT_RE.match(args[1].type) else 256
+            hb = I.rv(args[2]) if len(args) > 2 else bits - 1
+            if isinstance(hb, int) and hb + 1 < bits and not (isinstance(k, int) and k < (1 << (hb + 1))):
+                lo = self.fresh_scalar("klow", 0, 1 << (hb + 1))
+                hi = self.fresh_scalar("khigh", 0, 1 << (bits - hb - 1))
+                self.constraints.append((P(k) - lo - hi * (1 << (hb + 1)), "==0"))
+                k = lo
+            this.val = G(0).scale(k)
         elif n.startswith("multiply") or n.startswith("exponentiate"):
             this.val = G(0).scale(self.sval(args[1], "%s scalar" % f.qname))
         elif n == "random_generator":
